@@ -1,0 +1,94 @@
+//! Verification hooks. The whole module only exists with the cargo feature
+//! `verif`; nothing here changes emulator state or control flow.
+//!
+//! The event log is a fixed static ring written with plain stores: it is called
+//! from the memory helpers, which translated code calls with a stack that is
+//! not necessarily 16-byte aligned, so it must not allocate or touch TLS.
+
+pub const EVENT_CAPACITY: usize = 1 << 16;
+
+pub const EV_WRITE: u8 = b'W';
+pub const EV_READ: u8 = b'R';
+pub const EV_DELIVER: u8 = b'D';
+pub const EV_CONSUME: u8 = b'C';
+pub const EV_IRQ_SAMPLE: u8 = b'S';
+pub const EV_IRQ_VECTOR: u8 = b'V';
+
+#[derive(Copy, Clone, Debug, Eq, PartialEq)]
+pub struct Event {
+  pub kind: u8,
+  pub a: u32,
+  pub b: u32,
+}
+
+pub struct EventLog {
+  pub enabled: bool,
+  pub record_reads: bool,
+  pub overflow: bool,
+  pub len: usize,
+  pub events: [Event; EVENT_CAPACITY],
+}
+
+pub static mut LOG: EventLog = EventLog {
+  enabled: false,
+  record_reads: false,
+  overflow: false,
+  len: 0,
+  events: [Event { kind: 0, a: 0, b: 0 }; EVENT_CAPACITY],
+};
+
+#[inline(always)]
+pub fn event(kind: u8, a: u32, b: u32) {
+  unsafe {
+    let log = &mut *core::ptr::addr_of_mut!(LOG);
+    if !log.enabled {
+      return;
+    }
+    if kind == EV_READ && !log.record_reads {
+      return;
+    }
+    if log.len < EVENT_CAPACITY {
+      log.events[log.len] = Event { kind, a, b };
+      log.len += 1;
+    } else {
+      log.overflow = true;
+    }
+  }
+}
+
+/// Start recording from an empty log.
+pub fn start(record_reads: bool) {
+  unsafe {
+    let log = &mut *core::ptr::addr_of_mut!(LOG);
+    log.len = 0;
+    log.overflow = false;
+    log.record_reads = record_reads;
+    log.enabled = true;
+  }
+}
+
+/// Stop recording; the recorded events stay readable through `events()`.
+pub fn stop() {
+  unsafe {
+    (*core::ptr::addr_of_mut!(LOG)).enabled = false;
+  }
+}
+
+pub fn clear() {
+  unsafe {
+    let log = &mut *core::ptr::addr_of_mut!(LOG);
+    log.len = 0;
+    log.overflow = false;
+  }
+}
+
+pub fn events() -> &'static [Event] {
+  unsafe {
+    let log = &*core::ptr::addr_of!(LOG);
+    &log.events[..log.len]
+  }
+}
+
+pub fn overflowed() -> bool {
+  unsafe { (*core::ptr::addr_of!(LOG)).overflow }
+}
